@@ -3,7 +3,9 @@ package props
 import (
 	"fmt"
 	"go/ast"
+	"go/token"
 	"go/types"
+	"sort"
 	"strings"
 
 	"gpverif/core"
@@ -18,10 +20,38 @@ type canon struct {
 	fn   *core.Fn
 	// rename maps identifier names of package-level objects (constants, functions) – used to compare V4/V6 siblings
 	rename func(string) string
+	// names overrides the rendering of particular variables (roles such as "the iterator", "the iterated map")
+	names map[types.Object]string
+}
+
+// declaringDef: the initialiser in the statement that declares v (`v := e` / `var v = e`), nil if it has none.
+func (c *canon) declaringDef(v *types.Var) ast.Expr {
+	var out ast.Expr
+	core.Walk(c.fn.Decl.Body, true, func(x ast.Node) bool {
+		switch a := x.(type) {
+		case *ast.AssignStmt:
+			if a.Tok.String() != ":=" {
+				return true
+			}
+			for i, l := range a.Lhs {
+				if id, ok := l.(*ast.Ident); ok && c.info.Defs[id] == types.Object(v) && len(a.Rhs) == len(a.Lhs) {
+					out = a.Rhs[i]
+				}
+			}
+		case *ast.ValueSpec:
+			for i, nm := range a.Names {
+				if c.info.Defs[nm] == types.Object(v) && i < len(a.Values) {
+					out = a.Values[i]
+				}
+			}
+		}
+		return true
+	})
+	return out
 }
 
 func newCanon(f *core.Fn) *canon {
-	return &canon{info: f.Info(), fn: f, rename: func(s string) string { return s }}
+	return &canon{info: f.Info(), fn: f, rename: func(s string) string { return s }, names: map[types.Object]string{}}
 }
 
 func (c *canon) soleAssign(v *types.Var) ast.Expr {
@@ -79,6 +109,9 @@ func (c *canon) render(e ast.Expr, depth int) string {
 			o = c.info.Defs[x]
 		}
 		if v, ok := o.(*types.Var); ok && !v.IsField() && v.Pkg() != nil && v.Parent() != v.Pkg().Scope() {
+			if nm, ok := c.names[v]; ok {
+				return nm
+			}
 			sig := c.fn.Obj.Type().(*types.Signature)
 			for i := 0; i < sig.Params().Len(); i++ {
 				if sig.Params().At(i) == v {
@@ -93,9 +126,20 @@ func (c *canon) render(e ast.Expr, depth int) string {
 			if sig.Recv() == v {
 				return "RECV"
 			}
+			if nm, ok := c.names[v]; ok {
+				return nm
+			}
 			if depth < 6 {
 				if d := c.soleAssign(v); d != nil {
 					return c.render(d, depth+1)
+				}
+				// assigned more than once: named after its declaring definition, so that the rendering does not depend on
+				// what the maintainer called it
+				if d := c.declaringDef(v); d != nil {
+					return "var<" + c.render(d, depth+1) + ">"
+				}
+				if call, idx := defCall(c.info, c.fn.Decl.Body, v); call != nil {
+					return fmt.Sprintf("res%d<%s>", idx, c.render(call, depth+1))
 				}
 			}
 			return "local:" + x.Name
@@ -125,7 +169,11 @@ func (c *canon) render(e ast.Expr, depth int) string {
 	case *ast.StarExpr:
 		return "*" + c.render(x.X, depth)
 	case *ast.BinaryExpr:
-		return "(" + c.render(x.X, depth) + x.Op.String() + c.render(x.Y, depth) + ")"
+		l, r := c.render(x.X, depth), c.render(x.Y, depth)
+		if op := x.Op.String(); (op == "==" || op == "!=") && r < l {
+			l, r = r, l // equality is symmetric: one rendering for both operand orders
+		}
+		return "(" + l + x.Op.String() + r + ")"
 	case *ast.CompositeLit:
 		var es []string
 		for _, el := range x.Elts {
@@ -170,4 +218,41 @@ func enumCond(cases map[ast.Node]ast.Expr, n ast.Node, taken bool) (subject, kon
 		return x, y, eq, true
 	}
 	return nil, nil, false, false
+}
+
+// cond renders a branch condition together with its outcome in negation normal form: negations are pushed to the atoms
+// (De Morgan), `a != b` becomes the negated atom `a == b`, and the operands of && / || are sorted. `!(p && q)` taken and
+// `!p || !q` taken, or the else-branch of `x != A && x != B` and the then-branch of `x == A || x == B`, render identically.
+func (c *canon) cond(e ast.Expr, truth bool) string {
+	e = ast.Unparen(e)
+	switch x := e.(type) {
+	case *ast.UnaryExpr:
+		if x.Op.String() == "!" {
+			return c.cond(x.X, !truth)
+		}
+	case *ast.BinaryExpr:
+		switch x.Op.String() {
+		case "&&", "||":
+			op := x.Op.String()
+			if !truth { // De Morgan
+				op = map[string]string{"&&": "||", "||": "&&"}[op]
+			}
+			var parts []string
+			var flat func(b ast.Expr)
+			flat = func(b ast.Expr) {
+				if bb, ok := ast.Unparen(b).(*ast.BinaryExpr); ok && bb.Op == x.Op {
+					flat(bb.X)
+					flat(bb.Y)
+					return
+				}
+				parts = append(parts, c.cond(b, truth))
+			}
+			flat(x)
+			sort.Strings(parts)
+			return op + "{" + strings.Join(parts, ", ") + "}"
+		case "!=":
+			return c.str(&ast.BinaryExpr{X: x.X, Y: x.Y, Op: token.EQL}) + map[bool]string{true: ":F", false: ":T"}[truth]
+		}
+	}
+	return c.str(e) + map[bool]string{true: ":T", false: ":F"}[truth]
 }
